@@ -69,23 +69,22 @@ inline std::string read_word(const char* line, const char** endptr) {
   return std::string(line, *endptr);
 }
 
-// no checking for overflow
+// no checking for overflow (unsigned arithmetic: out-of-range numbers wrap around)
 inline int string_to_int(const char* p, bool checked, size_t length=0) {
-  int mult = -1;
-  int n = 0;
+  bool negative = false;
+  unsigned n = 0;
   size_t i = 0;
   while ((length == 0 || i < length) && is_space(p[i]))
     ++i;
   if (p[i] == '-') {
-    mult = 1;
+    negative = true;
     ++i;
   } else if (p[i] == '+') {
     ++i;
   }
   bool has_digits = false;
-  // use negative numbers because INT_MIN < -INT_MAX
   for (; (length == 0 || i < length) && is_digit(p[i]); ++i) {
-    n = n * 10 - (p[i] - '0');
+    n = n * 10 + unsigned(p[i] - '0');
     has_digits = true;
   }
   if (checked) {
@@ -95,7 +94,7 @@ inline int string_to_int(const char* p, bool checked, size_t length=0) {
       throw std::invalid_argument("not an integer: " +
                                   std::string(p, length ? length : i+1));
   }
-  return mult * n;
+  return static_cast<int>(negative ? 0u - n : n);
 }
 
 inline int string_to_int(const std::string& str, bool checked) {
@@ -103,32 +102,32 @@ inline int string_to_int(const std::string& str, bool checked) {
 }
 
 inline int simple_atoi(const char* p, const char** endptr=nullptr) {
-  int mult = -1;
-  int n = 0;
+  bool negative = false;
+  unsigned n = 0;
   while (is_space(*p))
     ++p;
   if (*p == '-') {
-    mult = 1;
+    negative = true;
     ++p;
   } else if (*p == '+') {
     ++p;
   }
   for (; is_digit(*p); ++p)
-    n = n * 10 - (*p - '0'); // use negative numbers because INT_MIN < -INT_MAX
+    n = n * 10 + unsigned(*p - '0'); // unsigned: out-of-range numbers wrap around
   if (endptr)
     *endptr = p;
-  return mult * n;
+  return static_cast<int>(negative ? 0u - n : n);
 }
 
 inline int no_sign_atoi(const char* p, const char** endptr=nullptr) {
-  int n = 0;
+  unsigned n = 0;
   while (is_space(*p))
     ++p;
   for (; is_digit(*p); ++p)
-    n = n * 10 + (*p - '0');
+    n = n * 10 + unsigned(*p - '0');
   if (endptr)
     *endptr = p;
-  return n;
+  return static_cast<int>(n);
 }
 
 } // namespace gemmi
